@@ -442,6 +442,7 @@ where
     #[must_use]
     pub fn rank_prefetch(&self, symbol: T, i: usize) -> Option<usize> {
         if i > self.n
+            || symbol > usize::MAX.as_()
             || symbol.as_() >= self.codes_encode.len()
             || self.codes_encode[symbol.as_() as usize].len == 0
         {
@@ -704,6 +705,7 @@ where
     #[inline(always)]
     fn rank(&self, symbol: Self::Item, i: usize) -> Option<usize> {
         if i > self.n
+            || symbol > usize::MAX.as_()
             || symbol.as_() >= self.codes_encode.len()
             || self.codes_encode[symbol.as_()].len == 0
         {
@@ -793,7 +795,8 @@ where
     #[must_use]
     #[inline(always)]
     fn select(&self, symbol: Self::Item, i: usize) -> Option<usize> {
-        if symbol.as_() >= self.codes_encode.len()
+        if symbol > usize::MAX.as_()
+            || symbol.as_() >= self.codes_encode.len()
             || self.codes_encode[symbol.as_() as usize].len == 0
         {
             return None;
